@@ -125,8 +125,18 @@ def judge(case, obs, model):
     return issues
 
 
+def _plain(j):
+    return j[0] in ("o", "i", "b", "n", "fill") or (j[0] == "t" and all(_plain(x) for x in j[1:]))
+
+
 def model_request(case):  # noqa: F811
-    return None
+    """set/dict and the special value domains (lists, strings, floats) are outside the Lean value model"""
+    if case["tool"] in ("set", "dict"):
+        return None
+    vals = list(case["srcs"][0]["script"]) + [v for k, v in case["params"].items() if isinstance(v, list)]
+    if not all(_plain(v) for v in vals):
+        return None
+    return tools.model_request(case)
 
 
 def features(case, obs):
